@@ -29,7 +29,9 @@ type tspec struct {
 	units []string
 }
 
-var typePool = []tspec{{"n", []string{"count"}}, {"t", []string{"milliseconds", "nanoseconds", "microseconds"}}, {"b", []string{"bytes", "kilobytes"}}}
+// "t" and "w" draw from the same unit family, so one unit string can occur in two columns of a
+// profile that need different conversions
+var typePool = []tspec{{"n", []string{"count"}}, {"t", []string{"milliseconds", "nanoseconds", "microseconds"}}, {"b", []string{"bytes", "kilobytes"}}, {"w", []string{"milliseconds", "microseconds", "nanoseconds"}}}
 
 // universe of named frames shared by all profiles of a tuple
 func genOne(r *rand.Rand, types [][2]string, nfn int) *profile.Profile {
@@ -39,14 +41,20 @@ func genOne(r *rand.Rand, types [][2]string, nfn int) *profile.Profile {
 	}
 	m := &profile.Mapping{ID: 1, Start: 0x1000, Limit: 0x9000, File: "/bin/prog"}
 	p.Mapping = []*profile.Mapping{m}
-	for i := 0; i < nfn; i++ {
-		p.Function = append(p.Function, &profile.Function{ID: uint64(i + 1), Name: fmt.Sprintf("f%d", i), SystemName: fmt.Sprintf("f%d", i), Filename: "x.go"})
+	// every profile holds its own subset of the tuple's nfn functions, in its own order, with
+	// dense ids: table sizes and id assignments differ from one profile of a tuple to the next
+	sub := r.Perm(nfn)[:1+r.Intn(nfn)]
+	for i, u := range sub {
+		p.Function = append(p.Function, &profile.Function{ID: uint64(i + 1), Name: fmt.Sprintf("f%d", u), SystemName: fmt.Sprintf("f%d", u), Filename: "x.go"})
 	}
 	// one location per function plus one inlined pair
-	for i := 0; i < nfn; i++ {
-		p.Location = append(p.Location, &profile.Location{ID: uint64(i + 1), Mapping: m, Address: 0x1000 + uint64(i)*16, Line: []profile.Line{{Function: p.Function[i], Line: 1}}})
+	for i, u := range sub {
+		p.Location = append(p.Location, &profile.Location{ID: uint64(i + 1), Mapping: m, Address: 0x1000 + uint64(u)*16, Line: []profile.Line{{Function: p.Function[i], Line: 1}}})
 	}
-	p.Location = append(p.Location, &profile.Location{ID: uint64(nfn + 1), Mapping: m, Address: 0x1800, Line: []profile.Line{{Function: p.Function[0], Line: 2}, {Function: p.Function[nfn-1], Line: 3}}})
+	if r.Intn(2) == 0 {
+		a, b := r.Intn(len(sub)), r.Intn(len(sub))
+		p.Location = append(p.Location, &profile.Location{ID: uint64(len(sub) + 1), Mapping: m, Address: 0x1800 + uint64(sub[a]*16+sub[b]), Line: []profile.Line{{Function: p.Function[a], Line: 2}, {Function: p.Function[b], Line: 3}}})
+	}
 	for i, n := 0, 1+r.Intn(6); i < n; i++ {
 		s := &profile.Sample{}
 		for range types {
@@ -200,7 +208,7 @@ func describe(ins []input) string {
 
 func runLinear(c *harness.Ctx) harness.Result {
 	r := c.Rng
-	nfn := 2 + r.Intn(3)
+	nfn := 2 + r.Intn(6)
 	// choose the set of types each profile has: all share at least the chosen type
 	order := r.Perm(len(typePool))
 	chosen := typePool[order[0]]
